@@ -1,6 +1,7 @@
 """C13 - rrulestr and str(rrule) are inverse; RFC text means the same as keywords."""
 import datetime as D
 import itertools
+import os
 
 from vf import mon_rrule as M, rr_util as U
 from vf.oracles import rrule_ref as RR
@@ -438,12 +439,61 @@ def wl_options(ctx, R, tz):
         checks.append(('tzid-default-gettz', [x.tzinfo for x in r] == [ny, ny]))
     r = R.rrulestr('DTSTART;TZID=X/Y:19970902T090000\nRRULE:FREQ=DAILY;COUNT=2', tzids={'X/Y': tz.tzoffset('X/Y', 3600)})
     checks.append(('tzids-mapping', [x.utcoffset() for x in r] == [D.timedelta(hours=1)] * 2))
+    # compatible=True implies unfold (and forceset): folded text needs no explicit unfold
+    for nl in ('\n', '\r\n'):
+        try:
+            r = R.rrulestr('DTSTART:19970902T090000%sRRULE:FREQ=DAILY;INTERVAL=2;%s COUNT=2;BYD%s AY=TU,TH' % (nl, nl, nl), compatible=True)
+            checks.append(('compatible-implies-unfold', isinstance(r, R.rruleset) and list(r) == [st, D.datetime(1997, 9, 4, 9)]))
+        except Exception as e:
+            checks.append(('compatible-implies-unfold', False))
     for name, ok in checks:
         ctx.ev()
         ctx.count('option_checks')
         ctx.distinct('option|' + name)
         if not ok:
             ctx.violation('option-' + name, {'workload': 'options', 'option': name}, 'documented behaviour of %s not observed' % name)
+
+
+COLD_CALLS = [
+    ("RRULE:FREQ=DAILY;COUNT=2\nRDATE:19970910T090000", {'dtstart': 'D.datetime(1997, 9, 2, 9)'}),
+    ("RDATE:19970910T090000,19970911T090000", {'forceset': 'True'}),
+    ("RRULE:FREQ=DAILY;COUNT=2\nEXDATE:19970903T090000", {'dtstart': 'D.datetime(1997, 9, 2, 9)'}),
+    ("RRULE:FREQ=DAILY;UNTIL=19970904T090000", {'dtstart': 'D.datetime(1997, 9, 2, 9)'}),
+    ("DTSTART:19970902T090000\nRRULE:FREQ=DAILY;COUNT=2", {}),
+    ("FREQ=WEEKLY;COUNT=2;BYDAY=TU", {'dtstart': 'D.datetime(1997, 9, 2, 9)', 'cache': 'True'}),
+    ("DTSTART;TZID=America/New_York:19970902T090000\nRRULE:FREQ=DAILY;COUNT=2", {}),
+    ("RRULE:FREQ=DAILY;COUNT=2\nEXRULE:FREQ=DAILY;COUNT=1", {'dtstart': 'D.datetime(1997, 9, 2, 9)', 'compatible': 'True'}),
+]
+
+
+def wl_cold(ctx, R):
+    """the meaning of a text must not depend on what was parsed earlier in the process: each text is also given to a fresh
+    interpreter as its very first call and the printed occurrences are compared with the in-process (warm) answer"""
+    import subprocess
+    import sys
+    for text, opts in COLD_CALLS:
+        optsrc = ', '.join('%s=%s' % kv for kv in sorted(opts.items()))
+        code = ('import datetime as D\nfrom dateutil import rrule as R\n'
+                'try:\n    r = R.rrulestr(%r%s)\n    print("ok", [x.isoformat() for x in r])\n'
+                'except Exception as e:\n    print("exc", type(e).__name__, e)\n' % (text, (', ' + optsrc) if optsrc else ''))
+        env = dict(os.environ)
+        try:
+            p = subprocess.run([sys.executable, '-B', '-c', code], stdout=subprocess.PIPE, stderr=subprocess.PIPE, text=True, timeout=120, env=env)
+        except subprocess.TimeoutExpired:
+            ctx.inconclusive_because('cold-start interpreter did not finish')
+            continue
+        cold = p.stdout.strip() or ('crash ' + p.stderr.strip()[-200:])
+        ns = {'D': D, 'R': R}
+        try:
+            warm = 'ok ' + repr([x.isoformat() for x in eval('R.rrulestr(%r%s)' % (text, (', ' + optsrc) if optsrc else ''), ns)])
+        except Exception as e:
+            warm = 'exc %s %s' % (type(e).__name__, e)
+        ctx.ev()
+        ctx.count('cold_start_calls')
+        ctx.distinct('cold|' + text[:30])
+        if cold != warm:
+            ctx.violation('first-call-differs', {'workload': 'cold-start', 'text': text, 'options': opts},
+                          'as the first call of a fresh process: %s; in a process that has parsed other texts before: %s' % (cold[:200], warm[:200]))
 
 
 MALFORMED = [
@@ -500,6 +550,8 @@ def run(ctx):
             except M.Horizon:
                 ctx.count('stray_horizon')
         wl_options(ctx, R, tz)
+        if ctx.shard == 0:
+            wl_cold(ctx, R)
         wl_malformed(ctx, R, tz, rng)
         ctx.count('periods_observed', probe.periods_total)
     finally:
